@@ -87,6 +87,10 @@ class C17(SmallSuite):
                     o["ret"] = rng.randrange(n_ret)
                 else:
                     o["y"] = [l + (h - l) * rng.random() for l, h in zip(*box)]
+                    if rng.random() < 0.12 and all(math.ceil(l) <= math.floor(h) for l, h in zip(*box)):
+                        # integer-typed coordinates, as a caller (and the repo's own test_Preimages_N1) may write them
+                        o["y"] = [rng.randint(math.ceil(l), math.floor(h)) for l, h in zip(*box)]
+                        o["as"] = rng.choice(["int_list", "int_array"])
                 ops.append(o)
             elif u < 0.87:
                 lo, hi = objectives.gen_box(rng, N)
@@ -137,10 +141,16 @@ class C17(SmallSuite):
                     returned.append([got, np.array(got, copy=True)])
                     q_before_bounds = True
                 elif k in ("inverse", "preimages"):
+                    if "y" in op and not all(l <= v <= h for v, l, h in zip(op["y"], cur[0], cur[1])):
+                        continue      # (only in shrunk plans) the point is outside the current box: not a legal query
                     if op["as"] == "ret":
                         arg = returned[op["ret"]][0]
                     elif op["as"] == "list":
                         arg = [float(v) for v in op["y"]]
+                    elif op["as"] == "int_list":
+                        arg = [int(v) for v in op["y"]]
+                    elif op["as"] == "int_array":
+                        arg = np.array([int(v) for v in op["y"]])
                     else:
                         arg = np.array(op["y"], dtype=np.double)
                     before = copy.deepcopy(arg) if isinstance(arg, list) else np.array(arg, copy=True)
@@ -198,6 +208,7 @@ class C17(SmallSuite):
             rep.nontrivial = core.short_hash((rep.sig, N, m))
         rep.probes["N1_runs"] += int(N == 1)
         rep.probes["arg_is_returned_array"] += sum(1 for o in plan["ops"] if o.get("as") == "ret")
+        rep.probes["int_typed_arguments"] += sum(1 for o in plan["ops"] if str(o.get("as", "")).startswith("int_"))
         rep.probes["setbounds"] += sum(1 for o in plan["ops"] if o["op"] == "setbounds")
         rep.probes["scribbles"] += sum(1 for o in plan["ops"] if o["op"].startswith("scribble"))
         return rep
